@@ -22,28 +22,60 @@ def _extra(ctx):
 
 SPEC = {
     "property": "C03",
-    "rule": "(order) random monotone filtered complexes on <= 7 vertices with 2-5 distinct values (+rare infinities) are built by 4 insertion routes "
-            "(filtration order, random order, with-subfaces by decreasing value, shuffled + insert/remove of an extra vertex) on 4 option sets; each "
-            "filtration_simplex_range is checked to be a permutation of the (non-ignored) simplices, non-decreasing, faces-first, and all 16 "
-            "sequences must be identical; (mfnd_*) arbitrary non-monotone assignments: make_filtration_non_decreasing = pointwise max over faces, "
-            "return value, idempotence, then prune_above_filtration = sublevel set + return value, full read-interface sweep; (ext_*) extend_filtration "
-            "vs the cone filtration of the vertex function incl. documented rescaling, decode of value and part; (big) 40-100 vertex complexes with "
-            "3e3-1e5 simplices and <= 6 distinct values sorted under TBB thread limits {1,2,3,4,8,16} x background spinners x random affinity masks, "
-            "3 insertion routes, 2 option sets, TBB and non-TBB builds: one sequence hash per complex; (hist_*) model-generated operation histories (C01's generator) with the order re-validated after every step, the cache being reset by the caller only where the documentation requires it; the filtration cache is warm before make_filtration_non_decreasing / prune / extend_filtration on half of the cases; (threads) TSan: 8 threads on independent trees. "
+    "rule": "(order) random monotone filtered complexes on <= 7 vertices are built by 4 insertion routes (filtration order, random order, with-subfaces "
+            "by decreasing value, shuffled + insert/remove of an extra vertex) on 4 option sets (5 with the int Filtration_value set when the values are "
+            "integral); value sets: dyadic with 2-5 distinct values (+rare +inf) | special members of the float range (-inf, lowest(), -0.0, 0.0, "
+            "denorm_min(), max(), +inf) | whole numbers incl. INT_MIN; each filtration_simplex_range is checked to be a permutation of the (non-ignored) "
+            "simplices, non-decreasing, faces-first, all 16-20 sequences must be identical AND equal to the documented order (value, ties in reverse "
+            "lexicographic order); the same complex in an option set with store_filtration=false must list a faces-first permutation in reverse "
+            "lexicographic order; (mfnd_*, 5 option sets incl. int values) arbitrary non-monotone assignments (a quarter of the floating cases mixing in "
+            "-inf, -0.0, max(), lowest(), denorm_min()), on half of the cases reset_filtration(v, min_dim) first with min_dim in {-1..dim+1, INT_MAX} "
+            "(= v on dimension >= min_dim, cache dropped), then make_filtration_non_decreasing = pointwise max over faces, return value, idempotence, "
+            "then prune_above_filtration (thresholds incl. -inf, -0.0, +inf, INT_MIN/INT_MAX for int) = sublevel set + return value, full read-interface "
+            "sweep; (ext_*, 6 option sets) extend_filtration vs the cone filtration of the vertex function incl. documented rescaling, decode of value and "
+            "part, dimension() == dim+1; labels are NOT compressed for the non-contiguous option sets: C01's universes plus {INT_MIN, INT_MAX-1, ..}, an "
+            "all-negative one whose largest label is -2 = null_vertex()-1 (the cone point must not be the dummy vertex: this class is probed in a forked "
+            "child so that a crash is reported as ext.crash with the class in the signature), 16-bit analogues; junk (non-monotone, infinite) values on the "
+            "simplices of dimension >= 1 on half of the cases; 0-3 remove_maximal_simplex / prune_above_dimension steps first; the empty complex (from the "
+            "start or emptied by the removals) must become the cone point alone; the cone point may carry any label (exactly one new vertex); (big) 40-100 "
+            "vertex complexes with 3e3-1e5 simplices and <= 6 distinct values sorted under TBB thread limits {1,2,3,4,8,16} x background spinners x random "
+            "affinity masks, 3 insertion routes, 3 option sets (default, full_featured, stable handles), TBB and non-TBB builds: one sequence hash per "
+            "complex; (hist_*, 5 option sets) model-generated operation histories (C01's generator WITH its extensions: repeated vertices, out-of-order "
+            "streams, -inf / negative values and thresholds, extreme labels, batch and graph variants) with the order re-validated after every step, the "
+            "cache being reset by the caller only where the documentation requires it; hist_int runs the history with all values multiplied by 8 on an int "
+            "Filtration_value, hist_mini (store_filtration=false, no prune_above_filtration) checks a faces-first permutation in reverse lexicographic "
+            "order; the filtration cache is warm before reset_filtration / make_filtration_non_decreasing / prune / extend_filtration on half of the cases; "
+            "(small_dbg) order, mfnd_default, ext_default built WITHOUT -DNDEBUG: a GUDHI_CHECK firing on these valid inputs is a violation "
+            "(debug.gudhi_check); (threads) TSan: 8 threads on independent trees. "
             "non-trivial = complex with ties and >= 6 simplices / value assignment that changes / non-constant vertex function / big complex >= 3000 simplices",
     "assumptions": ["ThreadSanitizer cannot see into the prebuilt libtbb: the schedule quantifier is decided by functional determinism over perturbed runs, not by race detection",
                     "Bitmap_cubical_complex::filtration_simplex_range validity is checked by the C13 harness",
-                    "oracle::ComplexModel is the trusted model"],
+                    "oracle::ComplexModel is the trusted model",
+                    "extend_filtration is only called with finite vertex values whose range neither overflows nor is subnormal (undocumented numeric "
+                    "precondition of the rescaling: such draws are counted under skip.ext_numeric_precondition and not run)",
+                    "extend_filtration is never called on a complex containing the largest Vertex_handle (documented exclusion) nor on the empty complex "
+                    "of an option set with contiguous_vertices (the cone point could not be vertex 0..k-1)",
+                    "for an integral Filtration_value max() plays the part of +infinity inside the library (ignored by initialize_filtration(true), "
+                    "prune threshold that removes nothing): the harness never stores max() in a simplex of such a tree, and NaN is never used",
+                    "the label of the cone point is not documented: any single new vertex is accepted",
+                    "the forked probe of extend_filtration runs only for the class 'largest label == null_vertex()-1'; a crash on any other class is "
+                    "reported by the orchestrator as an anonymous sanitizer/crash violation"],
     "units": [
-        {"name": "small", "src": ["c03_small.cpp"], "variant": "asan",
+        {"name": "small", "src": ["c03_order.cpp", "c03_mfnd.cpp", "c03_ext.cpp", "c03_hist.cpp"], "variant": "asan",
          "configs": {"order": {"quick": 800, "thorough": 60000},
                      "mfnd_default": {"quick": 1500, "thorough": 80000}, "mfnd_full": {"quick": 800, "thorough": 40000},
                      "mfnd_stable": {"quick": 800, "thorough": 40000}, "mfnd_fastp": {"quick": 800, "thorough": 40000},
+                     "mfnd_int": {"quick": 600, "thorough": 30000},
                      "hist_default": {"quick": 600, "thorough": 40000}, "hist_full": {"quick": 400, "thorough": 20000}, "hist_fastp": {"quick": 400, "thorough": 20000},
-                     "ext_default": {"quick": 1000, "thorough": 50000}, "ext_full": {"quick": 600, "thorough": 30000}, "ext_fastp": {"quick": 600, "thorough": 30000}},
+                     "hist_int": {"quick": 300, "thorough": 20000}, "hist_mini": {"quick": 300, "thorough": 20000},
+                     "ext_default": {"quick": 1000, "thorough": 50000}, "ext_full": {"quick": 600, "thorough": 30000}, "ext_fastp": {"quick": 600, "thorough": 30000},
+                     "ext_stable": {"quick": 400, "thorough": 20000}, "ext_fastcof": {"quick": 400, "thorough": 20000}, "ext_lowfull": {"quick": 500, "thorough": 25000}},
          "chunk": 50},
-        {"name": "small_tbb", "src": ["c03_small.cpp"], "variant": "asan", "defs": ["GUDHI_USE_TBB"], "libs": ["-ltbb"],
+        {"name": "small_tbb", "src": ["c03_order.cpp", "c03_mfnd.cpp"], "variant": "asan", "defs": ["GUDHI_USE_TBB", "C03_LIGHT"], "libs": ["-ltbb"],
          "configs": {"order": {"quick": 400, "thorough": 30000}, "mfnd_default": {"quick": 400, "thorough": 20000}}, "chunk": 50},
+        # the same code WITHOUT -DNDEBUG: GUDHI_CHECK / assert are live, a check firing on valid input is reported (debug.gudhi_check)
+        {"name": "small_dbg", "src": ["c03_order.cpp", "c03_mfnd.cpp", "c03_ext.cpp"], "variant": "asan", "defs": ["C03_LIGHT"], "cflags": ["-UNDEBUG"],
+         "configs": {"order": {"quick": 150, "thorough": 5000}, "mfnd_default": {"quick": 300, "thorough": 10000}, "ext_default": {"quick": 300, "thorough": 10000}}, "chunk": 50},
         {"name": "big_tbb", "src": ["c03_big.cpp"], "variant": "asan", "defs": ["GUDHI_USE_TBB"], "libs": ["-ltbb", "-pthread"],
          "configs": {"big": {"quick": 8, "thorough": 300}}, "chunk": 1},
         {"name": "big_notbb", "src": ["c03_big.cpp"], "variant": "asan", "libs": ["-pthread"],
@@ -52,13 +84,27 @@ SPEC = {
          "configs": {"threads": {"quick": 48, "thorough": 800}}, "chunk": 3},
     ],
     "extra": _extra,
-    "floors": {"quick": {"mfnd.changes": 1000, "prune.removes": 500, "ext.nonconstant": 500, "cmp.order_same_across_histories_and_options": 500,
-                         "cmp.big_sort": 200, "sort.seen_3plus_threads": 1, "threads.overlap_4plus": 1, "_distinct_nontrivial": 1500, "state.cache_warm_before_op": 1500, "ext.zero_dimensional_complex": 200, "order.checked_without_explicit_reset": 1000}},
+    "floors": {"quick": {"mfnd.changes": 1000, "prune.removes": 500, "ext.nonconstant": 850, "cmp.order_same_across_histories_and_options": 500,
+                         "cmp.big_sort": 200, "sort.seen_3plus_threads": 1, "threads.overlap_4plus": 1, "_distinct_nontrivial": 1500, "state.cache_warm_before_op": 1500, "ext.zero_dimensional_complex": 200, "order.checked_without_explicit_reset": 1000,
+                         # input classes added after the audit (about half of what seed 1 measures)
+                         "ext.largest_label_is_null_vertex_minus_1": 180, "ext.largest_label_is_max_minus_1": 140, "ext.smallest_label_is_min": 130,
+                         "ext.junk_values_on_higher_simplices": 600, "ext.after_removals": 1300, "ext.stale_dimension_bound_before_call": 370,
+                         "ext.empty_complex": 280, "cmp.ext_dimension": 1300,
+                         "cmp.order_documented": 650, "cmp.order_without_stored_values": 650, "order.int_filtration_value": 190, "order.values_special": 130,
+                         "value.order_minus_infinity": 40, "value.order_lowest": 55, "value.order_negative_zero": 110, "value.order_max": 300, "value.order_denorm_min": 180,
+                         "mfnd.int_filtration_value": 300, "mfnd.special_values": 550, "mfnd.after_reset_filtration": 1300,
+                         "reset.min_dim_int_max": 150, "reset.min_dim_above_dimension": 220, "reset.min_dim_inside": 420, "reset.min_dim_nonpositive": 470,
+                         "value.mfnd_minus_infinity": 500, "value.mfnd_negative_zero": 490, "value.mfnd_max": 500, "value.mfnd_lowest": 500, "value.mfnd_denorm_min": 500,
+                         "prune.threshold_minus_infinity": 130, "prune.threshold_negative_zero": 140,
+                         "hist.extreme_label_universe": 250, "hist.stream_steps": 1200, "hist.repeated_vertex_inputs": 600, "steps.hist_order_int_values": 2100,
+                         "cmp.filtration_range_without_values": 1800, "cmp.big_sort_stable_handles": 16}},
     "manifest": {
         "text": "Runtime monitor: validity of the filtration order (permutation, monotone, faces first) and its determinism across insertion histories, "
                 "option sets, TBB/non-TBB builds, TBB thread limits, affinity masks and background load (functional determinism monitor with evidence of "
                 "the number of worker threads observed), plus exact oracles for make_filtration_non_decreasing, prune_above_filtration and the extended "
-                "filtration; independent trees on 8 threads under ThreadSanitizer. Sampled inputs and schedules; held-on-what-was-observed.",
+                "filtration (all label universes short of the largest Vertex_handle, junk values above dimension 0, after removals, the empty complex), "
+                "reset_filtration, the documented tie order, int and absent filtration values, a build with GUDHI_CHECK live; independent trees on 8 "
+                "threads under ThreadSanitizer. Sampled inputs and schedules; held-on-what-was-observed.",
         "note": "TSan/helgrind are blind to the prebuilt libtbb, so races inside parallel_sort that never change the output are out of reach; trusted: oracle::ComplexModel",
         "technique": "runtime monitoring: reference-model oracle + schedule-perturbed determinism monitor, ASan/UBSan and ThreadSanitizer builds",
     },
